@@ -389,6 +389,28 @@ class BaseClientHandler:
 
     ##################################################################
     #
+    async def notifications_while_waiting(self, cmd: IMAPClientCommand) -> None:
+        """
+        Called when a command that carries message numbers has been given
+        its turn at the mailbox. While it waited for that turn other
+        clients' commands may have left notifications for this client.
+
+        If messages were expunged the sequence numbers in this command, and
+        the ones the client will read in our responses, are from before those
+        EXPUNGEs. As at the start of the command: a UID command is sent the
+        EXPUNGEs now, any other command is refused so that the client
+        collects them first.
+
+        The other notifications (flags as they were before this command
+        runs) go out now, ahead of what this command itself reports, not
+        after it.
+        """
+        if self.pending_expunges() and not cmd.uid_command:
+            raise No("There are pending EXPUNGEs.")
+        await self.send_pending_notifications()
+
+    ##################################################################
+    #
     async def send_pending_notifications(self) -> None:
         """
         Deal with pending notifications like expunges that have built up
@@ -1408,6 +1430,7 @@ class Authenticated(BaseClientHandler):
                 raise No("There are pending untagged responses")
 
         async with cmd.ready_and_okay(self.mbox):
+            await self.notifications_while_waiting(cmd)
             try:
                 results = await self.mbox.search(
                     cmd.search_key, cmd.uid_command, cmd.timeout_cm
@@ -1471,6 +1494,7 @@ class Authenticated(BaseClientHandler):
         self.fetch_while_pending_count = 0
         try:
             async with cmd.ready_and_okay(self.mbox):
+                await self.notifications_while_waiting(cmd)
                 msg_set = (
                     sorted(cmd.msg_set_as_set) if cmd.msg_set_as_set else []
                 )
@@ -1567,6 +1591,7 @@ class Authenticated(BaseClientHandler):
         #
         try:
             async with cmd.ready_and_okay(self.mbox):
+                await self.notifications_while_waiting(cmd)
                 msg_set = (
                     sorted(cmd.msg_set_as_set) if cmd.msg_set_as_set else []
                 )
@@ -1631,6 +1656,7 @@ class Authenticated(BaseClientHandler):
         # Wait until the mailbox gives us the go-ahead to run the command.
         #
         async with cmd.ready_and_okay(self.mbox):
+            await self.notifications_while_waiting(cmd)
             try:
                 dest_mbox = await self.server.get_mailbox(cmd.mailbox_name)
                 src_uids, dst_uids = await self.mbox.copy(
@@ -1705,6 +1731,7 @@ class Authenticated(BaseClientHandler):
         # of mailboxes in opposite directions.
         #
         async with cmd.ready_and_okay(self.mbox):
+            await self.notifications_while_waiting(cmd)
             try:
                 dest_mbox = await self.server.get_mailbox(cmd.mailbox_name)
                 src_uids, dst_uids = await self.mbox.copy(
